@@ -25,7 +25,7 @@ TBegin ==
   /\ IsEv("reset")
   \* renderings of one abstract value (C07) share a group: their reference is the canonical rendering
   /\ Begin(IF R.group # "" THEN <<R.parser, R.lit, R.flag, R.group>> ELSE <<R.parser, R.lit, R.flag, R.input>>, R.input, R.limit, R.faulty, R.lines, R.ref,
-           R.parser \in {"aig", "aig_parse"})
+           R.parser \in {"aig", "aig_parse", "aig_skip"})
   /\ corr' = <<R.corrupt, R.cline, R.clo, R.chi>>
   /\ expect' = <<R.has_expect, R.expect>>
 
